@@ -71,7 +71,7 @@ func (s *Sys) Quiesce(o QuiesceOpts) (View, error) {
 				return v2, nil
 			}
 			confirmFailed.Add(1)
-			why = "observation not confirmed"
+			why = fmt.Sprintf("observation not confirmed (second evaluation quiescent=%v, events %d -> %d, same view=%v)", ok2, n1, s.Log.Len(), sameView(v, v2))
 		}
 		if time.Now().After(deadline) {
 			extra := ""
